@@ -38,6 +38,16 @@ CHECKS = {
         "note": "Trusted: TLC; the abstraction of byte code to index-addressed instructions in the harness; the two guarded hooks.",
         "technique": "TLA+ transcription model-checked exhaustively (small scope) + artefact validation of real optimizer in/out pairs + twin runs",
     },
+    "C10": {
+        "text": ("Laws.tla holds the equality/ordering/truthiness/copy/conversion tables over abstract descriptors (type pair x relation); TLC "
+                 "checks the property's laws on them for every descriptor and emits them. The real runtime is evaluated on a concrete universe "
+                 "with boundary numerics, nested/shared containers, immutables, errors, times and seeded random values - every ordered pair, "
+                 "through the Object API and through compiled scripts - and each answer must equal the table entry of the pair's descriptor, "
+                 "which the harness computes with Go's own operators."),
+        "design_ref": "DESIGN.md 5.10 (Laws), 8/C10",
+        "note": "Trusted: TLC; Go's comparison operators and strconv/conversions as the descriptor and value oracles.",
+        "technique": "TLA+ tables with laws as TLC invariants; exhaustive pair evaluation of the real runtime against the tables",
+    },
     "C13": {
         "text": ("Modules.tla models the import-graph compilation (cycle check on the parent chain, root cache, store at every level); TLC "
                  "checks termination, 'fails iff a cycle is reachable', compiled-once and simple-path over every graph of the bounded "
